@@ -181,9 +181,10 @@ def check(ctx):
                                     f"writes the wire counter .{t.attr} outside WireResourceManager, bypassing the non-negativity guards")
     if n_ext == 0:
         rep.proved("R-C47-writers", "pennylane/estimator/**", "no external writer of .zeroed/.any_state")
-    from .c47_extra import extra
+    from .c47_extra import collapse, extra
 
     extra(ctx, rep)
+    collapse(ctx, rep)
     return rep
 
 
